@@ -98,6 +98,7 @@ def run(e: Engine, rep: Report):
     n16(e, rep)
     n17(e, rep)
     n18(e, rep)
+    n19(e, rep)
     rep.floor('N1', 9, 'relay implementations / set sites')
     rep.floor('N2', 12, 'client command sites')
 
@@ -2093,6 +2094,49 @@ def n15(e: Engine, rep: Report, rule: str = 'N15'):
                'no bytes-only / str-only method on reply.command',
                reason='nothing to check (producers: %d)' % len(producers),
                nontrivial=False)
+
+
+# -------------------------------------------------------------------- N19
+def n19(e: Engine, rep: Report, rule: str = 'N19'):
+    """The LMTP relay client drives an LmtpClient, whose ehlo() / helo() are
+    stubs raising NotImplementedError.  A step inherited from the SMTP relay
+    client that reaches one of them (the HELO fall-back after `500`) ends the
+    attempt with that bare exception instead of a relay error."""
+    rep.rule(rule, 'nothing the LMTP relay client can run calls a method '
+             'that its client class stubs out with NotImplementedError')
+    from ..resolve import is_abstract
+    cq = 'slimta.relay.smtp.lmtpclient.LmtpRelayClient'
+    cc = 'slimta.smtp.client.LmtpClient'
+    if cq not in e.p.classes or cc not in e.p.classes:
+        rep.error('anchor vanished: LmtpRelayClient / LmtpClient')
+        return
+    ctx = e.method_ctx(cq, '_run')
+    g = e.build(ctx, raises=lambda b, n, r: set(),
+                inline=e.inline_same_self(deny=['poll']), max_depth=8)
+    n = 0
+    for nd in g.calls():
+        f = nd.ast.func
+        if not (isinstance(f, ast.Attribute) and
+                (path_of(f.value, nd.frame) or '') == 'self.client'):
+            continue
+        m = e.p.lookup_method(cc, f.attr)
+        if m is None:
+            continue
+        n += 1
+        rep.evaluations += 1
+        rep.functions.add(nd.frame.ctx.func.qname)
+        rep.check(not is_abstract(m), rule,
+                  '%s[LmtpRelayClient]' % nd.frame.ctx.func.qname,
+                  'client.%s() exists for LMTP' % f.attr,
+                  'the LMTP relay client can reach `%s`, which LmtpClient '
+                  'stubs out (raise NotImplementedError): the attempt ends '
+                  'with that exception - for the queue an unexpected error, '
+                  'retried, although the peer gave a definite answer'
+                  % nd.text(40), loc=nd.loc(),
+                  reason='implemented by LmtpClient')
+    if n < 5:
+        rep.error('anchor vanished: client commands below '
+                  'LmtpRelayClient._run (%d < 5)' % n)
 
 
 # -------------------------------------------------------------------- N18
